@@ -36,6 +36,8 @@ def run(ck):
       jobs.append({"opt": opt, "case": c, "seed": ck.seed * 1000 + i, "quick": quick, "eigh": bool((i // 2) % 2), "shard_leg": (len(jobs) % 16 == 0),      # every 8th kept case (two jobs per case)
                    "middle": bool((i // 4) % 2),      # 2x2 layouts: every other one as (2b, 2, 2b)
                    "graft": {"ds": ["SGD", "RMSPROP", "ADAGRAD"][i % 3], "tf": ["SGD", "RMSPROP"][i % 2]}[opt]})
+  if not any(j.get("shard_leg") and j["opt"] == "ds" for j in jobs):
+    raise core.MachineryError("vacuous: no job carries the sharded companion leg")
   ck.sample({"case_from_TLC": cases[3], "meaning": "blocked target, per-block scales, companion"})
   res = core.run_workers("harness.workers.blocks_indep", jobs, work=ck.work)
   for j, r in zip(jobs, res):
